@@ -77,7 +77,7 @@ var allSizeModes = []string{"none", "fixed", "map", "fixedmap"}
 func specs() map[string]propSpec {
 	m := map[string]propSpec{}
 	full := GenOpts{MaxN: 8, Kinds: connectedKinds, SelfLoops: true, MultiComp: true,
-		P1: allP1, P2: allP2, P4: sizeAwareP4, P5: basicP5, SizeModes: allSizeModes, VirtualOut: []bool{false, true}}
+		P1: allP1, P2: allP2, P4: sizeAwareP4, P5: basicP5, SizeModes: allSizeModes, VirtualOut: []bool{false, true}, P3Noop: 12}
 	if v := os.Getenv("VH_MAXN"); v != "" { // diagnosis only
 		fmt.Sscan(v, &full.MaxN)
 	}
@@ -213,7 +213,7 @@ func specs() map[string]propSpec {
 	m["C14"] = propSpec{opts: o, gen: baseGen(o), oracle: layoutThen(oracleC14), rule: "random cyclic and acyclic multigraphs x {greedy, dfs}"}
 
 	o = GenOpts{MaxN: 9, Kinds: connectedKinds, P1: allP1, P2: allP2, P4: []string{"valign", "packright"}, P5: basicP5,
-		SizeModes: allSizeModes, VirtualOut: []bool{true}, LayerPos: true}
+		SizeModes: allSizeModes, VirtualOut: []bool{true}, LayerPos: true, P3Noop: 15}
 	m["C16"] = propSpec{opts: o, gen: baseGen(o), oracle: layoutThen(oracleC16), rule: "random connected multigraphs x heterogeneous widths x NodeSpacing >= 0 x {valign, packright}, helper nodes visible"}
 
 	o = full
@@ -278,6 +278,7 @@ func runProbe(prop string, seed uint64, n int, outPath string, maxViol int) int 
 		res.Dist["p2:"+c.P2]++
 		res.Dist["p4:"+c.P4]++
 		res.Dist["p5:"+c.P5]++
+		res.Dist["p3:"+c.P3]++
 		res.Dist["size:"+c.SizeMode]++
 		res.Dist[fmt.Sprintf("edges:%02d", (len(c.Edges)/4)*4)]++
 		if len(res.Samples) < 3 {
@@ -359,11 +360,21 @@ func guarded(f func() []string) (msgs []string, hung bool) {
 // shrinkCase greedily removes edges (and then simplifies options) while the oracle still reports a violation.
 // Oracles that draw random choices get a fixed rng per attempt so the result replays.
 func shrinkCase(c Case, sp propSpec, seed uint64) (Case, []string) {
+	hangs := 0
 	try := func(d Case) []string {
-		if len(d.Edges) == 0 {
+		if len(d.Edges) == 0 || hangs > 0 {
 			return nil
 		}
-		return sp.oracle(d, rngFor(d))
+		// a shrunk variant may not return either: evaluate under the watchdog and stop shrinking after a hang
+		// (the goroutine that spins cannot be stopped)
+		os.Setenv("VH_CASE_TIMEOUT", "5")
+		defer os.Unsetenv("VH_CASE_TIMEOUT")
+		m, hung := guarded(func() []string { return sp.oracle(d, rngFor(d)) })
+		if hung {
+			hangs++
+			return nil
+		}
+		return m
 	}
 	best := c
 	bestMsgs := try(c)
